@@ -657,7 +657,7 @@ def run(ctx, rep):
 
     # ---- C01.cache / C01.panic -------------------------------------------------------------------------------------------
     from rules import castlib
-    rep.floor("C01.cast", "narrowing casts inspected", castlib.cast_audit(ctx, rep, "C01", ["encode.rs", "decode.rs", "audio.rs", "byteorder.rs"]), 20)
+    rep.floor("C01.cast", "narrowing casts inspected", castlib.cast_audit(ctx, rep, "C01", ["encode.rs", "decode.rs", "audio.rs", "byteorder.rs"]), 8)
     cachelib.cache_rules(ctx, rep, "C01")
     auditlib.panic_audit(ctx, rep, "C01", ["G_enc"], floor_sites=260)
     # families shared with other properties (necessary conditions of a lossless round trip as well)
